@@ -406,7 +406,11 @@ class BADS:
             )
 
         # Check that all X0 are inside the bounds
-        if np.any(x0 < lower_bounds) or np.any(x0 > upper_bounds):
+        if (
+            np.any(x0 < lower_bounds)
+            or np.any(x0 > upper_bounds)
+            or np.any(np.isinf(x0))
+        ):
             raise ValueError(
                 """bads:InitialPointsNotInsideBounds: The starting
                 points X0 are not inside the provided hard bounds lower_bounds and upper_bounds."""
